@@ -10,8 +10,8 @@ themselves are C07's subject): values outside the wire universe travel as tagged
 
 * `parse m v` is the identity when `v` already has the class the cast produces (exact class; timestamps
   with whole seconds), reads decimal digits for INTEGER and the canonical ISO text orjson writes for
-  DATE / TIMESTAMP, gives `None` for NULL, and fails otherwise (in particular `'HH:MM:SS'` for TIME:
-  `parse_iso` refuses it).  The harness only sends raw defaults inside this domain.
+  DATE / TIMESTAMP / TIME (`'HH:MM:SS[.ffffff]'`, which `parse_time` reads since repair C16-F10), gives `None`
+  for NULL, and fails otherwise.  The harness only sends raw defaults inside this domain.
 * `json v` = `orjson.loads(orjson.dumps(v))`: bytes, Decimal, timedelta and integers outside
   `-2^63 .. 2^64-1` are TypeErrors; date / datetime / time become their ISO text; non-finite floats
   become null; containers are mapped.
@@ -79,6 +79,7 @@ def parse (m : TypeName.Str) (v : PyVal) : Option PyVal :=
         | "INTEGER", .str s => (parseIntText s).map .int
         | "DATE", .str s => some (tagged "date" s)
         | "TIMESTAMP", .str s => some (tagged "datetime" s)
+        | "TIME", .str s => some (tagged "time" s)     -- 'HH:MM:SS[.ffffff]' as orjson writes a time (repair C16-F10)
         | _, _ => none
 
 mutual
